@@ -44,6 +44,57 @@ theorem stepThread_fifo {s t tid alt} : FifoStep s t tid alt := by
   | 4 => exact fifo_g4 hg | 5 => exact fifo_g5 hg | 6 => exact fifo_g6 hg | 7 => exact fifo_g7 hg
   | n + 8 => omega
 
+/-- a producer holds a value it has not put yet -/
+def putPc : Pc → Bool
+  | .pAcq | .pPut | .pWait | .pWake => true
+  | _ => false
+
+/-- program points of `enqueue_from_iterator` -/
+def prodPc : Pc → Bool
+  | .sAcq | .sRel | .eNext | .pAcq | .pPut | .pStAcq | .pStRel | .pR0 | .pR1 | .pR2 | .pR3 | .pR4
+  | .pRet | .pWait | .pWake | .pRaiseT | .pExit
+  | .tAcq | .tR0 | .tR1 | .tR2 | .tR3 | .tR4 | .tS0 | .tS1 | .tS2 | .tS3 | .tS4 | .tRel => true
+  | _ => false
+
+theorem prodPc_of_kind {pc : Pc} (h : pcKind pc = some .producer) : prodPc pc = true := by
+  cases pc <;> simp_all [pcKind, prodPc] <;> (rename_i cc; cases cc <;> simp_all)
+
+/-- how a step moves a value from a producer's hand into the queue -/
+def PutStep (s : Shared) (t : Thread) (tid : Tid) (alt : Bool) : Prop :=
+  ∀ lbl s' t', stepThread s t tid alt = some (lbl, s', t') →
+    s'.produced = s.produced ++ (if t.pc = .pPut ∧ t'.pc = .pStAcq then [t.v] else []) ∧
+    (t.pc ≠ .eNext → prodPc t.pc = true →
+      t'.v = t.v ∧ (putPc t'.pc = true → putPc t.pc = true) ∧ (t'.pc = .pStAcq → t.pc = .pPut))
+
+set_option hygiene false in
+macro "put_group" : tactic => `(tactic| (
+  intro lbl s' t' h
+  unfold stepThread at h
+  cases hpc : t.pc <;> (try (simp only [hpc, Pc.group] at hg; omega)) <;>
+    simp only [hpc] at h <;>
+    (try simp only [acquire, release, notify, waitPark, waitWake, goto, enqLoop, putLoop, batchLoop,
+      afterRaise, afterValue] at h) <;>
+    (repeat' split at h) <;>
+    (try simp only [Option.some.injEq, Prod.mk.injEq, reduceCtorEq] at h) <;>
+    (try (obtain ⟨-, rfl, rfl⟩ := h)) <;>
+    simp_all [Shared.setOwner, prodPc, putPc]))
+
+theorem put_g0 {s t tid alt} (hg : t.pc.group = 0) : PutStep s t tid alt := by put_group
+theorem put_g1 {s t tid alt} (hg : t.pc.group = 1) : PutStep s t tid alt := by put_group
+theorem put_g2 {s t tid alt} (hg : t.pc.group = 2) : PutStep s t tid alt := by put_group
+theorem put_g3 {s t tid alt} (hg : t.pc.group = 3) : PutStep s t tid alt := by put_group
+theorem put_g4 {s t tid alt} (hg : t.pc.group = 4) : PutStep s t tid alt := by put_group
+theorem put_g5 {s t tid alt} (hg : t.pc.group = 5) : PutStep s t tid alt := by put_group
+theorem put_g6 {s t tid alt} (hg : t.pc.group = 6) : PutStep s t tid alt := by put_group
+theorem put_g7 {s t tid alt} (hg : t.pc.group = 7) : PutStep s t tid alt := by put_group
+
+theorem stepThread_put {s t tid alt} : PutStep s t tid alt := by
+  have h := Pc.group_lt t.pc
+  match hg : t.pc.group with
+  | 0 => exact put_g0 hg | 1 => exact put_g1 hg | 2 => exact put_g2 hg | 3 => exact put_g3 hg
+  | 4 => exact put_g4 hg | 5 => exact put_g5 hg | 6 => exact put_g6 hg | 7 => exact put_g7 hg
+  | n + 8 => omega
+
 end MlModel.Queue
 
 namespace MlModel.Piter2
@@ -293,6 +344,306 @@ theorem out_step {c c' : Cfg} {tid : Tid} {alt : Bool} {lbl : String} (hg : Good
       obtain ⟨-, p2, p3, -⟩ := stepThread_pstep l c'.s2 b' hst hkind h2
       exact hother hne t' e1 p3 p2
     · exact hother hne t' e1 (by rw [e2]) (by rw [e2])
+
+/-! ### the producer side of the second level -/
+
+/-- the outputs of the row function for one input value (`[]` when it fails) -/
+def Fp (F : Nat → Option (List Nat)) (v : Nat) : List Nat := (F v).getD []
+
+/-- the output a second-level task holds in hand on its way into `Q2.put` -/
+def inflight (t : Th) : List Nat := if putPc t.b.pc then [t.b.v.2] else []
+
+/-- what a second-level task has put into the output queue -/
+def em2 (t : Th) : List Nat := if t.role = .l2 then t.emitted else []
+
+/-- second level, producer side: (`bal`) what a task has put, holds in hand and still has pending is — in order,
+without repetition — part of the row function's outputs for the values it pulled from the input queue; (`prod`) the
+output queue's `produced` is exactly what the tasks have put -/
+structure L2Inv (F : Nat → Option (List Nat)) (c : Cfg) : Prop where
+  bal : ∀ t ∈ c.ths, t.role = .l2 → (t.emitted ++ inflight t ++ t.pend).Sublist (t.pulled.flatMap (Fp F))
+  prod : List.Perm (c.s2.produced.map (·.2)) (c.ths.map em2).flatten
+
+theorem flatten_set_append {α} {l : List (List α)} {i : Nat} {x new : List α} (h : l[i]? = some x) :
+    ((l.set i (x ++ new)).flatten).Perm (l.flatten ++ new) := by
+  induction l generalizing i with
+  | nil => simp at h
+  | cons y ys ih =>
+    cases i with
+    | zero =>
+      simp only [List.getElem?_cons_zero, Option.some.injEq] at h
+      subst h
+      simp only [List.set_cons_zero, List.flatten_cons, List.append_assoc]
+      exact List.Perm.append_left _ List.perm_append_comm
+    | succ j =>
+      simp only [List.getElem?_cons_succ] at h
+      simp only [List.set_cons_succ, List.flatten_cons, List.append_assoc]
+      exact List.Perm.append_left _ (ih h)
+
+/-- one step as seen by the second-level producer-side invariant: the stepping thread `t ↦ t'`, what it adds to
+`produced` of the output queue -/
+structure L2Step (F : Nat → Option (List Nat)) (c c' : Cfg) (tid : Tid) (t t' : Th) (new : List Nat) : Prop where
+  ths : c'.ths = c.ths.set tid t'
+  role : t'.role = t.role
+  prod : c'.s2.produced.map (·.2) = c.s2.produced.map (·.2) ++ new
+  em : t.role = .l2 → t'.emitted = t.emitted ++ new
+  nl2 : t.role ≠ .l2 → new = []
+  bal : t.role = .l2 → (t.emitted ++ inflight t ++ t.pend).Sublist (t.pulled.flatMap (Fp F)) →
+    (t'.emitted ++ inflight t' ++ t'.pend).Sublist (t'.pulled.flatMap (Fp F))
+
+theorem l2inv_of_step {c c' : Cfg} {tid : Tid} {t t' : Th} {new : List Nat} (ht : c.ths[tid]? = some t)
+    (hs : L2Step F c c' tid t t' new) (hv : L2Inv F c) : L2Inv F c' := by
+  constructor
+  · intro u hu hr
+    rw [hs.ths] at hu
+    rcases List.mem_or_eq_of_mem_set hu with hu | rfl
+    · exact hv.bal u hu hr
+    · have hr' : t.role = .l2 := by rw [← hs.role]; exact hr
+      exact hs.bal hr' (hv.bal t (List.mem_of_getElem? ht) hr')
+  · rw [hs.prod, hs.ths, List.map_set]
+    have hget : (c.ths.map em2)[tid]? = some (em2 t) := by simp [ht]
+    by_cases hr : t.role = .l2
+    · have : em2 t' = em2 t ++ new := by simp [em2, hr, hs.role, hs.em hr]
+      rw [this]
+      exact (hv.prod.append_right new).trans (flatten_set_append hget).symm
+    · have hn := hs.nl2 hr
+      have : em2 t' = em2 t := by simp [em2, hr, hs.role]
+      rw [this, set_self_of_get hget, hn, List.append_nil]
+      exact hv.prod
+
+theorem not_put_of_kind {q : Queue.Thread} (htok : TOK q) (hk : q.prog.kind ≠ .producer) : q.pc ≠ .pPut := by
+  intro e
+  exact hk (htok.kind .producer (by rw [e]; rfl))
+
+theorem cons_not_put {c : Cfg} (hg : Good c) {t : Th} (ht : c.ths[0]? = some t) : t.b.pc ≠ .pPut := by
+  have hr : t.role = .cons := (hg.inv.role0 0 t ht).mpr rfl
+  have hq2 := q2_get ht
+  rw [v2_cons hr] at hq2
+  have htok : TOK t.b := hg.live2.base.tok t.b (List.mem_of_getElem? hq2)
+  have hti := hg.inv.ti t (List.mem_of_getElem? ht)
+  unfold TI at hti
+  simp only [hr] at hti
+  cases hc : t.cpc <;> simp only [hc] at hti
+  · rw [hti.2.2.1]; simp
+  · rw [hti.2.2.1]; simp
+  · exact not_put_of_kind htok (by rw [hti.2.2.1]; simp)
+  · exact not_put_of_kind htok (by rw [hti.2.2.1]; simp)
+  · rw [hti.2.2.1.1]; simp
+  · rw [hti.2.2.1]; simp
+  · rw [hti.2.2.1]; simp
+
+/-- every step replaces the stepping thread by a thread of the same role -/
+theorem step_set {c c' : Cfg} {tid : Tid} {alt : Bool} {lbl : String} (h : step F c tid alt = some (lbl, c')) :
+    ∃ t t', c.ths[tid]? = some t ∧ c'.ths = c.ths.set tid t' ∧ t'.role = t.role := by
+  unfold step at h
+  split at h
+  · simp at h
+  · rename_i t ht
+    refine ⟨t, ?_⟩
+    split at h
+    · unfold stepCons at h
+      (repeat' split at h) <;> simp only [Option.some.injEq, Prod.mk.injEq, reduceCtorEq] at h <;>
+        obtain ⟨-, rfl⟩ := h <;>
+        first
+        | exact ⟨_, ht, rfl, rfl⟩
+        | exact ⟨_, ht, rfl, beginIter_role c t⟩
+        | exact ⟨_, ht, rfl, afterIter_role _ _ _ _⟩
+        | (refine ⟨_, ht, rfl, ?_⟩; split <;> first | rfl | exact beginIter_role c t)
+    · unfold stepL1 at h
+      (repeat' split at h) <;> simp only [Option.some.injEq, Prod.mk.injEq, reduceCtorEq] at h <;>
+        obtain ⟨-, rfl⟩ := h <;> exact ⟨_, ht, rfl, rfl⟩
+    · unfold stepL2 at h
+      (repeat' split at h) <;> simp only [Option.some.injEq, Prod.mk.injEq, reduceCtorEq] at h <;>
+        obtain ⟨-, rfl⟩ := h <;>
+        first
+        | exact ⟨_, ht, rfl, rfl⟩
+        | exact ⟨_, ht, rfl, afterPull_role _ _ _ _ _ _⟩
+        | exact ⟨_, ht, rfl, postProd_role _ _ _ _⟩
+
+theorem afterPull_bal {fwd : Bool} {tid : Tid} {s2 : Shared} {t : Th} (hpc : t.b.pc = .eNext) (r : Hand)
+    (hbal : (t.emitted ++ inflight t ++ t.pend).Sublist (t.pulled.flatMap (Fp F))) :
+    ((afterPull F fwd tid s2 t r).2.emitted ++ inflight (afterPull F fwd tid s2 t r).2 ++
+        (afterPull F fwd tid s2 t r).2.pend).Sublist ((afterPull F fwd tid s2 t r).2.pulled.flatMap (Fp F)) ∧
+    (afterPull F fwd tid s2 t r).2.emitted = t.emitted ∧ (afterPull F fwd tid s2 t r).1.produced = s2.produced := by
+  have hin : inflight t = [] := by simp [inflight, putPc, hpc]
+  rw [hin, List.append_nil] at hbal
+  have hem : t.emitted.Sublist (t.pulled.flatMap (Fp F)) := (List.sublist_append_left _ _).trans hbal
+  cases r with
+  | stop rets => exact ⟨by simpa [afterPull, inflight, putPc] using hbal, rfl, rfl⟩
+  | err e => exact ⟨by simpa [afterPull, failPull, inflight, putPc] using hbal, rfl, rfl⟩
+  | item v =>
+    simp only [afterPull]
+    split
+    · refine ⟨?_, rfl, rfl⟩
+      simp only [failPull, inflight, putPc, List.flatMap_append]
+      simpa using hbal.trans (List.sublist_append_left _ _)
+    · refine ⟨?_, rfl, rfl⟩
+      simp only [inflight, putPc, hpc, List.flatMap_append]
+      simpa using hbal.trans (List.sublist_append_left _ _)
+    · rename_i y ys hF
+      refine ⟨?_, rfl, rfl⟩
+      simp only [inflight, putPc, List.flatMap_append, List.flatMap_cons, List.flatMap_nil, Fp, hF, Option.getD_some,
+        List.append_nil, if_true]
+      simpa using List.Sublist.append hem (List.Sublist.refl (y :: ys))
+
+theorem afterPull_em (fwd : Bool) (tid : Tid) (s2 : Shared) (t : Th) (r : Hand) :
+    (afterPull F fwd tid s2 t r).2.emitted = t.emitted ∧ (afterPull F fwd tid s2 t r).1.produced = s2.produced := by
+  unfold afterPull failPull
+  (repeat' split) <;> exact ⟨rfl, rfl⟩
+
+/-- `postProd`, field by field -/
+theorem postProd_fields (tid : Tid) (t : Th) (s2' : Shared) (b' : Queue.Thread) :
+    (postProd tid t s2' b').pulled = t.pulled ∧
+    (postProd tid t s2' b').emitted =
+      (if t.b.pc == .pPut && b'.pc == .pStAcq then t.emitted ++ [t.b.v.2] else t.emitted) ∧
+    ((b'.pc = .eNext ∧ t.pend = [] ∧ (postProd tid t s2' b').b = b' ∧ (postProd tid t s2' b').pend = []) ∨
+     (b'.pc = .eNext ∧ ∃ y ys, t.pend = y :: ys ∧ (postProd tid t s2' b').b = { b' with pc := .pAcq, v := (tid, y) } ∧
+        (postProd tid t s2' b').pend = ys) ∨
+     (b'.pc ≠ .eNext ∧ (postProd tid t s2' b').b = b' ∧ (postProd tid t s2' b').pend = t.pend)) := by
+  by_cases he : b'.pc = .eNext
+  · cases hp : t.pend with
+    | nil =>
+      refine ⟨?_, ?_, .inl ⟨he, rfl, ?_, ?_⟩⟩ <;> simp [postProd, enterNext, he, hp]
+    | cons y ys =>
+      refine ⟨?_, ?_, .inr (.inl ⟨he, y, ys, rfl, ?_, ?_⟩)⟩ <;> simp [postProd, enterNext, he, hp]
+  · have he' : (b'.pc == Pc.eNext) = false := by simpa using he
+    by_cases hd : (b'.pc == .done && wantUp t.b.pc s2' b') = true
+    · refine ⟨?_, ?_, .inr (.inr ⟨he, ?_, ?_⟩)⟩ <;> simp [postProd, he', hd]
+    · refine ⟨?_, ?_, .inr (.inr ⟨he, ?_, ?_⟩)⟩ <;> simp [postProd, he', hd]
+
+/-- a `Q2` step of a second-level task, then the thread-local continuation -/
+theorem postProd_bal {tid : Tid} {t : Th} {s2 s2' : Shared} {alt : Bool} {l : String} {b' : Queue.Thread}
+    (hst : stepThread s2 t.b tid alt = some (l, s2', b')) (hne : t.b.pc ≠ .eNext) (hprod : prodPc t.b.pc = true) :
+    ∃ new, s2'.produced.map (·.2) = s2.produced.map (·.2) ++ new ∧
+      (postProd tid t s2' b').emitted = t.emitted ++ new ∧
+      ((t.emitted ++ inflight t ++ t.pend).Sublist (t.pulled.flatMap (Fp F)) →
+        ((postProd tid t s2' b').emitted ++ inflight (postProd tid t s2' b') ++ (postProd tid t s2' b').pend).Sublist
+          ((postProd tid t s2' b').pulled.flatMap (Fp F))) := by
+  obtain ⟨hp, hrest⟩ := stepThread_put l s2' b' hst
+  obtain ⟨hv, hput, hps⟩ := hrest hne hprod
+  obtain ⟨f1, f2, f3⟩ := postProd_fields tid t s2' b'
+  rw [f1]
+  by_cases hA : t.b.pc = .pPut ∧ b'.pc = .pStAcq
+  · -- the value in hand went into the queue
+    have hE : (postProd tid t s2' b').emitted = t.emitted ++ [t.b.v.2] := by rw [f2]; simp [hA]
+    refine ⟨[t.b.v.2], by rw [hp]; simp [hA], hE, fun hbal => ?_⟩
+    have hin : inflight t = [t.b.v.2] := by simp [inflight, putPc, hA.1]
+    have hne' : b'.pc ≠ .eNext := by rw [hA.2]; simp
+    rcases f3 with ⟨e, -⟩ | ⟨e, -⟩ | ⟨-, g1, g2⟩
+    · exact absurd e hne'
+    · exact absurd e hne'
+    · rw [hE, g2]
+      have : inflight (postProd tid t s2' b') = [] := by simp [inflight, g1, putPc, hA.2]
+      rw [this]
+      rw [hin] at hbal
+      simpa using hbal
+  · have hfl : (t.b.pc == Pc.pPut && b'.pc == Pc.pStAcq) = false := by
+      cases h1 : (t.b.pc == Pc.pPut && b'.pc == Pc.pStAcq) with
+      | false => rfl
+      | true => simp only [Bool.and_eq_true, beq_iff_eq] at h1; exact absurd h1 hA
+    have hE : (postProd tid t s2' b').emitted = t.emitted := by rw [f2, hfl]; simp
+    refine ⟨[], by rw [hp]; simp [hA], by rw [hE]; simp, fun hbal => ?_⟩
+    refine List.Sublist.trans ?_ hbal
+    rw [hE]
+    rcases f3 with ⟨e, hpend, g1, g2⟩ | ⟨e, y, ys, hpend, g1, g2⟩ | ⟨e, g1, g2⟩
+    · have : inflight (postProd tid t s2' b') = [] := by simp [inflight, g1, putPc, e]
+      rw [this, g2, hpend]
+      simp
+    · have : inflight (postProd tid t s2' b') = [y] := by simp [inflight, g1, putPc]
+      rw [this, g2, hpend]
+      simp only [List.append_assoc]
+      exact List.Sublist.append (List.Sublist.refl _) (by simpa using List.sublist_append_right (inflight t) (y :: ys))
+    · have hin' : (inflight (postProd tid t s2' b')).Sublist (inflight t) := by
+        simp only [inflight, g1]
+        by_cases hpp : putPc b'.pc = true
+        · simp [hpp, hput hpp, hv]
+        · simp [hpp]
+      rw [g2]
+      exact List.Sublist.append (List.Sublist.append (List.Sublist.refl _) hin') (List.Sublist.refl _)
+
+theorem prodPc_of_tok {q : Queue.Thread} (htok : TOK q) (hk : q.prog.kind = .producer) (h1 : q.pc ≠ .start)
+    (h2 : q.pc ≠ .done) : prodPc q.pc = true := by
+  apply prodPc_of_kind
+  rw [kind_of_tok htok h1 h2, hk]
+
+set_option maxHeartbeats 400000 in
+/-- every step of the two-queue LTS, as seen by the second-level producer-side invariant -/
+theorem l2step_of_step {c c' : Cfg} {tid : Tid} {alt : Bool} {lbl : String} (hg : Good c)
+    (h : step F c tid alt = some (lbl, c')) :
+    ∃ t t' new, c.ths[tid]? = some t ∧ L2Step F c c' tid t t' new := by
+  have hi := hg.inv
+  obtain ⟨t, t', ht, hths, hrole⟩ := step_set h
+  obtain ⟨t0, ht0, -, hS2⟩ := step_shared h
+  rw [ht] at ht0; cases ht0
+  have hti := hi.ti t (List.mem_of_getElem? ht)
+  by_cases hr : t.role = .l2
+  · -- a second-level task: by cases on its step
+    unfold step at h
+    simp only [ht, hr] at h
+    have hkb : t.b.prog.kind = .producer := by unfold TI at hti; simp only [hr] at hti; exact hti.1
+    have htok : TOK t.b := tok_of_v2 hr (hg.live2.base.tok _ (List.mem_of_getElem? (q2_get ht)))
+    have hsame : ∀ t'' : Th, c'.ths = c.ths.set tid t'' → t''.role = t.role → c'.s2 = c.s2 → t''.b = t.b →
+        t''.emitted = t.emitted → t''.pend = t.pend → t''.pulled = t.pulled →
+        ∃ t t' new, c.ths[tid]? = some t ∧ L2Step F c c' tid t t' new := by
+      intro t'' e1 e2 e3 e4 e5 e6 e7
+      refine ⟨t, t'', [], ht, e1, e2, by rw [e3]; simp, fun _ => by rw [e5]; simp, fun _ => rfl, fun _ hb => ?_⟩
+      simp only [inflight, e4, e5, e6, e7]; exact hb
+    unfold stepL2 at h
+    split at h
+    · -- start
+      rename_i hpc
+      (repeat' split at h) <;> simp only [Option.some.injEq, Prod.mk.injEq, reduceCtorEq] at h
+      obtain ⟨-, rfl⟩ := h
+      refine ⟨t, { t with b := { t.b with pc := .sAcq } }, [], ht, rfl, rfl, by simp [Cfg.setTh],
+        fun _ => by simp, fun _ => rfl, fun _ hb => ?_⟩
+      simpa [inflight, putPc, hpc] using hb
+    · rename_i hpc
+      split at h
+      · (repeat' split at h) <;> simp only [Option.some.injEq, Prod.mk.injEq, reduceCtorEq] at h <;>
+          obtain ⟨-, rfl⟩ := h <;> exact hsame _ rfl rfl rfl rfl rfl rfl rfl
+      · (repeat' split at h) <;> simp only [Option.some.injEq, Prod.mk.injEq, reduceCtorEq] at h <;>
+          obtain ⟨-, rfl⟩ := h <;> exact hsame _ rfl rfl rfl rfl rfl rfl rfl
+      · (repeat' split at h) <;> simp only [Option.some.injEq, Prod.mk.injEq, reduceCtorEq] at h
+        obtain ⟨-, rfl⟩ := h
+        obtain ⟨e1, e2⟩ := afterPull_em (F := F) c.fwd tid c.s2 t t.hand
+        exact ⟨t, _, [], ht, rfl, afterPull_role _ _ _ _ _ _, by show List.map _ (afterPull F c.fwd tid c.s2 t t.hand).1.produced = _; rw [e2]; simp,
+          fun _ => by rw [e1]; simp, fun _ => rfl, fun _ hb => (afterPull_bal hpc t.hand hb).1⟩
+      · simp at h
+    · (repeat' split at h) <;> simp only [Option.some.injEq, Prod.mk.injEq, reduceCtorEq] at h <;>
+        obtain ⟨-, rfl⟩ := h <;> exact hsame _ rfl rfl rfl rfl rfl rfl rfl
+    · rename_i h1 h2 h3
+      split at h
+      · simp at h
+      rename_i l s2' b' hst
+      simp only [Option.some.injEq, Prod.mk.injEq] at h
+      obtain ⟨-, rfl⟩ := h
+      obtain ⟨new, g1, g2, g3⟩ := postProd_bal (F := F) hst (fun e => h2 e)
+        (prodPc_of_tok htok hkb (fun e => h1 e) (fun e => h3 e))
+      exact ⟨t, _, new, ht, rfl, postProd_role _ _ _ _, g1, fun _ => g2, fun hn => absurd hr hn, fun _ hb => g3 hb⟩
+  · -- the caller or a first-level task: `produced` of the output queue is untouched
+    refine ⟨t, t', [], ht, hths, hrole, ?_, fun h' => absurd h' hr, fun _ => rfl, fun h' => absurd h' hr⟩
+    rw [List.append_nil]
+    cases hrr : t.role with
+    | l2 => exact absurd hrr hr
+    | l1 =>
+      unfold step at h
+      simp only [ht, hrr] at h
+      rw [(l1_s2 h).1]
+    | cons =>
+      have h0 := (hi.role0 tid t ht).mp hrr
+      subst h0
+      have hnp := cons_not_put hg ht
+      rcases hS2 with g | ⟨l, s2', b', hst, g | ⟨extra, g⟩⟩ | ⟨e, -, g⟩
+      · rw [g]
+      · rw [g, (stepThread_put l s2' b' hst).1]; simp [hnp]
+      · rw [g]; show List.map _ s2'.produced = _; rw [(stepThread_put l s2' b' hst).1]; simp [hnp]
+      · rw [g]
+
+theorem l2inv_reachable {c0 c : Cfg} (h : Reachable F c0 c) (hg0 : Good c0) (h0 : L2Inv F c0) : L2Inv F c := by
+  induction h with
+  | init => exact h0
+  | step hr hs ih =>
+    obtain ⟨t, t', new, ht, hst⟩ := l2step_of_step (good_reachable hg0 hr) hs
+    exact l2inv_of_step ht hst ih
 
 theorem out_reachable {c0 c : Cfg} (h : Reachable F c0 c) (hg0 : Good c0) (h0 : OutInv c0) : OutInv c := by
   induction h with
